@@ -81,6 +81,13 @@ PROPS = {
         "rule": "sizes: payload 0 and all residues mod 8 alone and at each batch position, segment limit +- frame overhead for limits 256/512/1024, entries larger than the whole segment, payloads 65512..65544 around the 64 KiB read buffer (4 per quick run, all 33 in thorough), random mixes; thorough adds MaxEntrySize-1, MaxEntrySize, MaxEntrySize+1 alone and mid-batch",
     },
 }
+PROPS["C11"] = {
+    "streams": [S("corrupt", 400, 20000, vm=(16, 200), vm_maxlen=5000), S("openfail", 28, 280, vm=(0, 0)),
+                S("codec", 800, 30000, vm=(20, 200))],
+    "trusted": [GO, BBOLT],
+    "assumptions": ["'nothing locked or open after a failed Open', 'never hangs' and the allocation bound of the Go code are observed (watchdog, runtime.MemStats), not proved; the model proves termination (fuel bound) and allocation bounds of its own explicit accounting"],
+    "rule": "corrupt: valid tails and sealed files damaged by bit flips, 8-byte splices, truncation at any offset, length-field edits (0xffffffff, MaxEntrySize+1, small), zero runs, frame-type bytes; then recovery or sealed open, reads, dump - outcome kind and recovered entries compared with the model, watchdog + allocation measurement; openfail: 7 kinds of damage to real directories (missing / short / zeroed / bad-magic / swapped-header sealed segment, garbage metadata record, foreign codec), Open must fail, a second Open in the same process must not block and, damage undone, must present the original log; codec: malformed encodings (7 mutation kinds) must yield errors, never panics",
+}
 for _p in ("C02", "C03", "C04", "C13"):
     PROPS[_p] = dict(PROPS["C01"])
 PROPS["C02"]["streams"] = [S("crash", 250, 6000, vm=(10, 100), vm_maxlen=8000), S("segcrash", 300, 8000, vm=(6, 60), vm_maxlen=6000)]
